@@ -249,6 +249,7 @@ type c20Trunc struct {
 	N      int      `json:"n"` // number of elements
 	ElemL  int      `json:"elem_len"`
 	IPs    []string `json:"ips,omitempty"`
+	NilAt  int      `json:"nil_at,omitempty"` // iparray: entries from this index on are nil (0 = none, 1 = all, k = from k-1)
 }
 
 func c20RunTrunc(tb drv.TB, rec *drv.Rec, sub string, c c20Trunc) {
@@ -273,6 +274,9 @@ func c20RunTrunc(tb drv.TB, rec *drv.Rec, sub string, c c20Trunc) {
 		ips := make([]string, c.N)
 		for i := range ips {
 			ips[i] = c.IPs[i%len(c.IPs)]
+			if c.NilAt > 0 && i >= c.NilAt-1 {
+				ips[i] = "" // a nil entry: rendered as an empty element
+			}
 		}
 		f = c20Field{Kind: "iparray", Name: c.Name, IPs: ips}
 	}
@@ -492,6 +496,10 @@ func TestC20(t *testing.T) {
 		case "iparray":
 			c.N = rapid.IntRange(0, 80).Draw(t, "n")
 			c.IPs = []string{c20GenIP6(t), c20GenIP6(t)}
+			if rapid.IntRange(0, 3).Draw(t, "withNil") == 0 { // nil entries cost two bytes each: long runs of them reach the end of the buffer too
+				c.N = rapid.IntRange(0, 1200).Draw(t, "nNil")
+				c.NilAt = 1 + rapid.SampledFrom([]int{0, 0, 1, 10, 40, 45, 46, 47, 48, 49, 50}).Draw(t, "nilFrom")
+			}
 		}
 		return c
 	}, func(tb drv.TB, c c20Trunc) { c20RunTrunc(tb, rec, "truncation", c) })
